@@ -54,7 +54,6 @@ class Walker:
         self.leaves = []       # (name, coq expr, comment)
         self.shape = []        # (text, [guards])
         self.count = {}
-        self.collect_locals(fn)
 
     # ---- locals are numbered in declaration order
     def collect_locals(self, n):
@@ -92,6 +91,12 @@ class Walker:
             return "%s[%s]" % (self.ref(n["inner"][1]), self.index(n["inner"][2]))
         if k == "IntegerLiteral":
             return n["value"]
+        if k in ("GNUNullExpr", "CXXNullPtrLiteralExpr"):
+            return "NULL"
+        if k == "StringLiteral":
+            return "<str>"
+        if k == "UnaryExprOrTypeTraitExpr":
+            return "sizeof"
         raise Refusal("unsupported lvalue " + str(k))
 
     def index(self, n):
@@ -228,6 +233,12 @@ class Walker:
             f = self.ref(n["inner"][0])
             self.shape.append(("call %s" % f, list(guards)))
         elif k == "DeclStmt":
+            # locals are numbered in the order in which their declarations are met in the walked region
+            # (renaming a local, or editing the multi_D branch, changes nothing)
+            for d in n.get("inner", []) or []:
+                if d.get("kind") == "VarDecl" and d["id"] not in self.locals:
+                    self.locals[d["id"]] = "v%02d" % len(self.locals)
+                    self.realname[self.locals[d["id"]]] = d.get("name", "?")
             for d in n.get("inner", []) or []:
                 if d.get("kind") == "VarDecl" and d.get("inner") and d["id"] in self.locals:
                     init = self.strip(d["inner"][-1])
